@@ -1,5 +1,6 @@
 """Source of MANIFEST.json (bin/mkmanifest writes the file and validates it against the schema)."""
 HOOK_COMMITS = ["7415e61"]
+FIX_COMMITS = ["154bc79", "5b349fa", "e22eec4", "243935d"]
 
 SERVER_NOTE = ("Trusted: TLC, the Go toolchain, the harness fakes (fakenet, wrapping handlers). Handler behaviour is the scripted "
                "Chaos handler; value dimensions (flag octets, sequence numbers, bodies, keys) are seeded samples, histories are "
@@ -28,7 +29,32 @@ CHECKS = {
    note=SERVER_NOTE + " serve_accepted and the goroutine gauge are covered by the Lifecycle scenarios."),
 }
 
+WIRE_NOTE = ("Trusted: TLC, the Go toolchain, Wire.tla as the reading of RFC 8907 and of the types' validation rules. Values are an enum "
+             "sweep, a boundary sweep (every field at and one past its wire width) and seeded boundary-biased samples; not exhaustive over values.")
+CHECKS.update({
+ "C01": dict(engine="wire", design_ref="5/C01", category="model_checking",
+   technique="RFC layouts as TLA+ operators (Wire.tla), model-checked on a small exhaustive domain and all short octet strings (MC_Wire); every recorded real Marshal/Unmarshal judged by TLC (Trace_Wire): bytes = Enc(v), decode of canonical bytes = Dec(b); client header octets via Trace_Client",
+   text="The eight wire layouts are written in TLA+ from the RFC figures; TLC checks the spec on its own (round trip, injectivity, agreement of the canonical and the implementation-shaped decoder on all octet strings up to the bound), and evaluates on every recorded operation of the real codecs that the bytes produced equal the RFC layout and that RFC-laid-out bytes (built without the library's encoder) decode to exactly the values they carry.",
+   note=WIRE_NOTE),
+ "C02": dict(engine="wire", design_ref="5/C02", category="model_checking",
+   technique="TLC evaluates Fits/Valid/round-trip predicates of Wire.tla on recorded encode-first and decode-first operations of the real codecs; boundary sweep over every wire width",
+   text="For every recorded encode: success implies the value fits every length field and is valid and decodes back to itself (header: single-connect on seq 2); for every decode-first: success implies re-encoding succeeds and decodes to the same value. Fits/Valid are the TLA+ statements, evaluated by TLC.",
+   note=WIRE_NOTE),
+ "C04": dict(engine="wire", design_ref="5/C04", category="model_checking",
+   technique="bounded-exhaustive TLC exploration of the implementation-shaped decoders over all short octet strings (MC_Wire) + TLC judgement of sensor records (panic, canary capacity, allocation) from the real decoders on truncations, corruptions, junk and 64 KiB inputs",
+   text="Model: Impl_K is total on all octet strings up to the bound, and a returned value is valid and made of octets of the input. Code: every decode runs under recover, in a slice with canary-filled spare capacity, between two MemStats readings; TLC checks no panic, bounded allocation, validity, and that the variable part equals the input octets that follow the length fields (Packet: body inside the input, length consistent); Impl_K must also explain the outcome (divergence otherwise).",
+   note=WIRE_NOTE + " Memory-safety clauses are sensed by Go runtime facilities, the TLA+ part supplies the predicates and the total decoder model."),
+ "C03": dict(engine="crypt", design_ref="5/C03", category="model_checking",
+   technique="MD5 (RFC 1321) and the RFC 8907 4.5 pad written in plain TLA+ (MD5.tla, Crypt.tla; test suites re-run by TLC each time); TLC recomputes every octet of recorded real traffic in both directions (server via scripted connections, client via loopback TCP)",
+   text="Server direction: bodies of boundary lengths (up to 65536) under random keys are fed to the real server, the handler-received body must equal the TLA+ de-obfuscation and the raw reply bytes must equal clear XOR Pad; client direction: Client.Send over loopback TCP against a raw peer, the octets on the wire and the packet returned for scripted reply octets are recomputed by TLC. Secrets are handed over as adjacent sub-slices of one buffer.",
+   note="Trusted: TLC, MD5.tla (validated against RFC 1321 A.5 and the captured vector of crypt_test.go each run). The harness uses Go crypto/md5 only to construct inputs. Keys/ids/lengths are seeded samples with boundary bias."),
+})
+
 ENGINES = [
+ {"name": "wire", "path": "lib/wire_family.py + spec/Wire.tla, MC_Wire.tla, Trace_Wire.tla + harness/codec.go",
+  "serves_properties": ["C01", "C02", "C04"], "kind_free_text": "TLA+ layouts/decoders model-checked; TLC judges recorded codec operations"},
+ {"name": "crypt", "path": "lib/crypt_family.py + spec/MD5.tla, Crypt.tla, MC_Crypt.tla, Trace_Client.tla, Trace_Server.tla + harness/client.go, chaos.go",
+  "serves_properties": ["C03"], "kind_free_text": "pure-TLA+ MD5 pad as oracle for both directions"},
  {"name": "server", "path": "lib/server_family.py + spec/Server.tla, MC_Server.tla, Trace_Server.tla, Wire.tla, Crypt.tla, MD5.tla + harness/chaos.go",
   "serves_properties": ["C06", "C07", "C08", "C19", "C20"],
   "kind_free_text": "TLC exhaustive model checking, script emission, replay on the real server, TLC trace validation"},
